@@ -652,7 +652,7 @@ func (in *interp) prepareCall(fr *frame, call *ssa.CallCommon) (fn value, args [
 	} else {
 		recv := v.(iface)
 		if recv.t == nil {
-			panic(runtimePanic{"invalid memory address or nil pointer dereference (method call on nil interface)"})
+			panic(runtimePanic{"invalid memory address or nil pointer dereference (method call on nil interface " + call.Method.Name() + " in " + fr.fn.String() + ")"})
 		}
 		if recv.t == rtypeType {
 			name := call.Method.Name()
